@@ -832,6 +832,18 @@ func (s *sink) handleReqClientErr(req *produceRequest, err error) {
 		} else {
 			s.cl.cfg.logger.Log(LogLevelDebug, "produce request failed with a retryable error, retrying without a metadata update", "broker", logID(s.nodeID), "err", err)
 		}
+		// The request may have reached the broker before the connection
+		// died. Every batch that was serialized for writing (AppendTo
+		// clears canFailFromLoadErrs) is now in the same unknown state
+		// as after REQUEST_TIMED_OUT: it may be in the log. If we later
+		// failed such a batch on a retryable response, its sequence
+		// numbers would be reused for new records, which the broker
+		// then deduplicates against the batch it already appended.
+		req.batches.eachOwnerLocked(func(batch seqRecBatch) {
+			if !batch.canFailFromLoadErrs {
+				batch.unsureIfProduced = true
+			}
+		})
 		s.handleRetryBatches(req.batches, nil, req.backoffSeq, updateMeta, false, "failed produce request triggered metadata update")
 
 	case errors.Is(err, ErrClientClosed):
@@ -1015,6 +1027,13 @@ func (s *sink) handleReqRespBatch(
 	// work sequentially; if this is not the first batch then an error
 	// happened and this later batch is no longer a part of a seq chain.
 	if !batch.isOwnersFirstBatch() {
+		// The broker appended this batch, but an earlier batch of the
+		// chain is unresolved, so this success is ignored and the batch
+		// is resent (and deduplicated) later. Until then it must not be
+		// failed: it is in the log.
+		if rp.ErrorCode == 0 {
+			batch.unsureIfProduced = true
+		}
 		if debug {
 			if err := kerr.ErrorForCode(rp.ErrorCode); err == nil {
 				if nrec > 0 {
